@@ -2,7 +2,7 @@
 
 Channels (see CONVENTIONS.md for the plugin interface):
   w   lib/dispatchcloud/worker     real worker/Pool/remoteRunner functions in a (state, timer) configuration
-                                   against the response model                    (ops tk sb pr sy kl uk sc o1 cr rs)
+                                   against the response model                    (ops tk sb pr sy kl uk sc o1 cr rs rc)
   s   lib/dispatchcloud/scheduler  real sync() / fixStaleLocks() against stubs    (ops sw fl)
   e2e lib/dispatchcloud            real dispatcher against the stub cloud with a randomized fault schedule,
                                    a restart, and a wall-clock deadline           (op  e2e)
@@ -318,6 +318,7 @@ def generate(rng, tier):
     cases += _gen_o1(rng, 4000 if big else 300)
     cases += _gen_cr(rng, tier)
     cases += _gen_rs(rng, tier)
+    cases += ["rc 1", "rc 0"]
     cases += _gen_sw(rng, 10000 if big else 800)
     cases += _gen_fl(rng, 3000 if big else 240)
     # malformed stream
@@ -605,6 +606,12 @@ def _oracle_rs(f, impl):
     return None
 
 
+def _oracle_rc(f, impl):
+    if impl == "ok":
+        return None
+    return "the dispatcher process panics when an SSH connection is verified: " + impl[:120]
+
+
 def _oracle_o1(f, impl):
     if impl.startswith("panic"):
         return "the dispatcher process panics while probing a worker: " + impl[:120]
@@ -637,16 +644,28 @@ def oracle(case, impl):
     f = case.split(" ")
     if f[0] == "o1" and impl.startswith("panic"):
         return _oracle_o1(f, impl)
+    if f[0] == "rc" and impl.startswith("panic"):
+        return _oracle_rc(f, impl)
     if impl.startswith(("panic", "CRASH")):
         return "driver could not observe the case: " + impl[:200]
     if impl == "bad-op":
         return None
     try:
-        fn = {"rs": _oracle_rs, "cr": _oracle_cr, "o1": _oracle_o1, "tk": _oracle_tk, "sb": _oracle_sb, "pr": _oracle_pr, "sy": _oracle_sy, "kl": _oracle_kl,
+        fn = {"rc": _oracle_rc, "rs": _oracle_rs, "cr": _oracle_cr, "o1": _oracle_o1, "tk": _oracle_tk, "sb": _oracle_sb, "pr": _oracle_pr, "sy": _oracle_sy, "kl": _oracle_kl,
               "uk": _oracle_uk, "sc": _oracle_sc, "sw": _oracle_sw, "fl": _oracle_fl, "e2e": _oracle_e2e}.get(f[0])
         return fn(f, impl) if fn else None
     except (ValueError, IndexError, KeyError) as e:
         return f"oracle could not parse case/output ({e}): {impl[:120]}"
+
+
+def finding_of(case, impl, why):
+    """F15b: Pool.reportSSHConnected dereferences the worker of an instance that Pool.sync has dropped while the
+    SSH handshake was in progress. Only this exact shape."""
+    if case == "rc 0" and impl == "panic runtime error: invalid memory address or nil pointer dereference":
+        return "F15b"
+    if case.startswith("e2e ") and impl == "e2e crash=reportSSHConnected-nil-worker":
+        return "F15b"
+    return None
 
 
 def nontrivial_key(case, impl):
